@@ -8,17 +8,22 @@ def sh(cmd, **kw):
     return subprocess.run(cmd, shell=True, capture_output=True, text=True, env=env, **kw)
 ids = sys.argv[1:] or sorted(os.path.basename(p) for p in glob.glob("/verif/seeded/*"))
 sh(f"git -C /repo worktree remove --force {WT}; git -C /repo worktree prune")
-base = json.load(open(f"/verif/seeded/{ids[0]}/meta.json")).get("base_commit", "fa80142")
-sh(f"git -C /repo worktree add -q --detach {WT} {base}")
+sh(f"git -C /repo worktree add -q --detach {WT} HEAD")
 for sid in ids:
     d = f"/verif/seeded/{sid}"
     meta = json.load(open(f"{d}/meta.json"))
     prop = meta["property"]
     extra = meta.get("also_checked_with", [])
     sh(f"git -C {WT} checkout -q -- . && git -C {WT} clean -fdq")
+    sh(f"git -C {WT} checkout -q --detach HEAD 2>/dev/null; git -C {WT} reset -q --hard $(git -C /repo rev-parse HEAD)")
     r = sh(f"git -C {WT} apply {d}/patch.diff")
     if r.returncode != 0:
-        print(sid, "PATCH DOES NOT APPLY", r.stderr[:200]); continue
+        # the patch was written against an older commit of /repo: fall back to that commit
+        base = meta.get("base_commit", "fa80142")
+        sh(f"git -C {WT} reset -q --hard {base}")
+        r = sh(f"git -C {WT} apply {d}/patch.diff")
+        if r.returncode != 0:
+            print(sid, "PATCH DOES NOT APPLY", r.stderr[:200]); continue
     verdict = None
     for check, tier in [(prop, "quick")] + [(c, "quick") for c in extra] + [(prop, "thorough")]:
         r = sh(f"VERIF_REPO={WT} /verif/run {check} {tier}", cwd="/verif")
